@@ -153,6 +153,9 @@ def parse_output(out, names, timed_out, wall):
         real_failed = [f for f in failed if not (f.startswith("NaN on ") or f.startswith("arithmetic overflow on floating-point"))]
         if st == "fail" and failed and not real_failed:
             st = "pass"
+        # an unwinding assertion is not a property failure: the loop bound of the harness is too small for this code
+        if st == "fail" and real_failed and all("unwinding assertion" in f for f in real_failed):
+            st = "unknown"
         failed = real_failed
         cover_unsat = re.findall(r'(?m)^Check \d+: .*cover.*\n\s+- Status: (UNSATISFIABLE|UNREACHABLE)', part)
         playback = None
